@@ -11,6 +11,7 @@
 import Proofs.GoTieFmtStr
 import Proofs.GoTieFormat
 import Proofs.GoTieMarshal
+import Proofs.GoTieCtors
 namespace AgeModel
 namespace Tie.C07
 
@@ -82,6 +83,22 @@ theorem header_marshal_tie {δ ε ω : Type} (E : GoTie.MarshalEnv δ ε ω) (h 
     ∃ d', Extracted.format_Header_Marshal E.W E.b64 E.New E.Wr E.Cl E.Enc ⟨h.stanzas.map GoTie.toGoFStanza, h.mac⟩ d = .ok (none, d') ∧
       E.absD d' = E.absD d ++ Format.marshal h :=
   GoTie.header_marshal_tie E h d
+
+/-- `format.DecodeString`, translated: CR and LF are refused BEFORE the decoder is asked (the
+    standard decoder skips them, which would give a second spelling of every header) -/
+theorem decodeString_tie {ε : Type} (Dec : ε → Bytes → Go.M (Bytes × Option Go.Err)) (b64 : ε) (s : Bytes) :
+    Extracted.format_DecodeString Dec b64 s =
+      if s.any (fun c => c = Format.nl || c = Format.cr) = true then .ok ([], some ⟨"format.DecodeString", 0, []⟩)
+      else Dec b64 s :=
+  GoTie.decodeString_tie Dec b64 s
+
+theorem decodeString_model {ε : Type} (Dec : ε → Bytes → Go.M (Bytes × Option Go.Err)) (b64 : ε) (eD : Go.Err)
+    (hDec : ∀ s, Dec b64 s = .ok (match B64.decRaw s with | some b => (b, none) | none => ([], some eD))) (s : Bytes) :
+    ∃ r, Extracted.format_DecodeString Dec b64 s = .ok r ∧
+      match Format.decodeString s with
+      | some b => r = (b, none)
+      | none => r.1 = [] ∧ r.2 ≠ none :=
+  GoTie.decodeString_model Dec b64 eD hDec s
 
 end Tie.C07
 end AgeModel
